@@ -24,14 +24,17 @@ ASSUMPTIONS = ["a TLS server never speaks before ClientHello, so no bytes trail 
 REQUIRED = ["handovers", "oracle_bytes", "oracle_live", "oracle_not_reused", "cuts"]
 
 
+HEAD_EXTRA = []  # extra header fields of the switching response (set per case: e.g. a Content-Length, which has no meaning there)
+
+
 def _mk(net, kind, after: bytes, status: int):
     def responder(req, origin):
         if req.method not in (b"CONNECT",) and req.target != b"/ws":
             return endpoints.echo_responder(req, origin)
         if kind == "upgrade":
-            return Resp(101, b"Switching Protocols", [(b"Connection", b"upgrade"), (b"Upgrade", b"hv")], b"",
+            return Resp(101, b"Switching Protocols", [(b"Connection", b"upgrade"), (b"Upgrade", b"hv")] + list(HEAD_EXTRA), b"",
                         framing="none", after=after)
-        return Resp(status, b"OK", [(b"X-P", b"1")], b"", framing="none", after=after)
+        return Resp(status, b"OK", [(b"X-P", b"1")] + list(HEAD_EXTRA), b"", framing="none", after=after)
 
     o = endpoints.Origin(net, "o.test", 80, responder=responder)
 
@@ -136,6 +139,9 @@ def run_case(case):
     flavor, kind, n_after, status = case["flavor"], case["kind"], case["after"], case["status"]
     r = random.Random(case["seed"])
     after = payload(case.get("payload", "arith"), n_after)
+    # a 101 / a 2xx reply to CONNECT has no body whatever its head says (RFC 9110 9.3.6, 15.2.2): some proxies send a
+    # Content-Length all the same
+    HEAD_EXTRA[:] = [(b"Content-Length", b"%d" % case["head_cl"])] if case.get("head_cl") is not None else []
     viol = []
     cnt = {"handovers": 0, "oracle_bytes": 0, "oracle_live": 0, "oracle_not_reused": 0, "cuts": 0, "bytes_compared": 0,
            "tunnel_runs": 0, "write_fault_handovers": 0}
@@ -219,7 +225,7 @@ def run_case(case):
                     pos = "head" if c < head_len else ("boundary" if c == head_len else "data")
                 else:
                     pos = "-"
-                sigs.add(f"{kind}|{status}|after{n_after}|{case.get('payload', 'arith')}|{name}|{pos}|mb{sizes}|rbf{int(rbf)}")
+                sigs.add(f"{kind}|{status}|after{n_after}|{case.get('payload', 'arith')}|cl{case.get('head_cl')}|{name}|{pos}|mb{sizes}|rbf{int(rbf)}")
                 ctx = {"kind": kind, "status": status, "after_len": n_after, "seg": seg.describe(), "max_bytes": sizes,
                        "flavor": flavor, "reads": info.get("reads"), "body_read_before_takeover": rbf}
                 if out.kind != "ok":
@@ -284,6 +290,9 @@ def plan(tier, seed):
                             cases.append(dict(cases[-1], payload=pk, seed=r.randrange(1 << 30)))
                     elif a:
                         cases.append(dict(cases[-1], payload=PAYLOADS[1 + (i + seed) % (len(PAYLOADS) - 1)], seed=r.randrange(1 << 30)))
+                    if a and (tier != "quick" or a in (5, 64)):
+                        cases.append(dict(cases[-1], payload="arith", head_cl=(3 if (i + seed) % 2 else 0) if tier == "quick" else 3,
+                                          seed=r.randrange(1 << 30)))
                 i += 1
     for f in flavors:
         cases.append({"flavor": f, "kind": "tunnel", "after": 0, "status": 200, "seed": r.randrange(1 << 30)})
